@@ -26,7 +26,8 @@ RULE = ("tapped calls: signals of 1..200 samples (non-constant, sign-changing, i
         " Also: the same array object passed again after an in-place change, integer signals whose squares do not fit their dtype (int16 / int32 / int64 / uint8), noise through the Weaver after a random history, all arguments omitted (default std 1.0)."
         " Round-4 classes: SNR levels (scalar or per-sample) as whole numbers in NumPy integer types, signed / unsigned / narrow; snr, snr_in_db, std positionally."
         " Round-5 classes: one-element level arrays on longer signals, the flag as numpy.bool_."
-        " Round-6 classes: two requests in a row without re-seeding (the second must add other noise, the first must be the seeded one).")
+        " Round-6 classes: two requests in a row without re-seeding (the second must add other noise, the first must be the seeded one)."
+        " Round-7 classes: a 'huge' kind - 66 000..90 000 samples whose power varies along the series.")
 REQUIRED_MONITORS = ["c15:consecutive_requests", "c15:tap", "c15:statistical", "c15:reproducible", "c15:same_object_again"]
 ASSUMPTIONS = ["SNR > 0; the global NumPy RNG is the documented noise source"]
 NSHARDS = 16
